@@ -16,6 +16,8 @@ import BlocV.Proofs.Lemmas.BuiltinCases
 import BlocV.Proofs.Lemmas.Typing
 import BlocV.Proofs.Lemmas.TypeSound
 import BlocV.Model.Stepwise
+import BlocV.Proofs.Lemmas.SafetyFlags
+import BlocV.KF.C02
 
 namespace BlocV.C02
 open BlocV Num
@@ -825,5 +827,87 @@ example : opFrag (.bin .lt (.bin .add (.var "X") (.lit (.int 1))) (.var "Y")) = 
     (∀ n ∈ varsOf (.bin .lt (.bin .add (.var "X") (.lit (.int 1))) (.var "Y")),
       [("X", Ty.int), ("Y", Ty.num), ("Z", Ty.none)].find? (·.1 == n) = [("X", Ty.int), ("Y", Ty.num), ("Z", Ty.str)].find? (·.1 == n)) := by
   decide +kernel
+
+/-! ### C02R3 — the safety flag at run time: loops over a constrained variable, every exit route
+
+  Model/Safety.lean (second half): the `_safety` bit of every symbol and the control stack of running loops, driven by loop
+  events (`Ev`). Tie: driver word `sflag`, family `safety-loops` of vlib/props/c02.py (every probe's verdict and the dump's
+  safety bit after every unit, through `prog`, the C API and the statement-at-a-time path). -/
+
+open BlocV.Safety in
+/-- **The flag is restored on every exit route.** Take any piece of a run that starts with `s` (any flags, any running loops)
+and performs any loop events — entering FOR / FORALL / WHILE loops, over any variables, nested however, each closed by its
+normal end, a `break`, a travelling `return` (`unstack`) or by a runtime error (`error d`) — without popping frames older
+than itself. Then (i) unwinding to the depth it started at (what `Context::onRuntimeError` does, and what the loops have
+done themselves when they all ended) gives back exactly the flags and the stack it started with; (ii) in particular, when
+the piece has closed its loops, the state is the starting state. -/
+theorem safety_restored_after_loop (s : FlagSt) (evs : List Ev) (h : depthOk s.ctl.length s evs = true) :
+    unwindTo s.ctl.length (run s evs).flags (run s evs).ctl = s ∧
+    ((run s evs).ctl.length = s.ctl.length → run s evs = s) :=
+  ⟨restored_by_unwinding s evs h, restored_when_closed s evs h⟩
+
+-- outer loop over $K, inner loop over $K left by an error that unwinds the inner frame only (depth 1), then the outer ends:
+-- back to the unit's starting state; and the seeded change's state (inner frame remembering `false`) is NOT what `step` builds
+open BlocV.Safety in
+example : depthOk 0 unitStart [.enterFor "$K", .enterFor "$K", .error 1, .unstack] = true ∧
+    (run unitStart [.enterFor "$K", .enterFor "$K", .error 1, .unstack]).ctl = [] ∧
+    (run unitStart [.enterFor "$K", .enterFor "$K", .error 1, .unstack]).flags "$K" = true ∧
+    (run unitStart [.enterFor "I", .enterFor "I", .unstack]).flags "I" = true ∧
+    (run unitStart [.enterFor "I", .enterFor "I", .unstack, .unstack]).flags "I" = false := by decide
+
+open BlocV.Safety in
+/-- **The constraint of a `$` variable survives every loop over it**: between units (`unitStart`: every symbol carries the
+flag its name gives it, no loop runs) and from there after ANY sequence of loop events — loops over the `$` variable itself,
+nested, left by any route, errors unwinding to any depth, even ill-bracketed sequences — the flag of a `$`-qualified
+variable is set, at every point. So `Context::storeVariable` (`storeCheck … true …`) and `registerSymbol` (`regS`) refuse a
+value of another kind at every point of every later unit (`store_preserves_major`, `safety_preserves_major`). -/
+theorem dollar_constraint_survives_loops (v : String) (hv : isDollar v = true) (evs : List Ev) :
+    (run unitStart evs).flags v = true :=
+  (held_run v unitStart evs ⟨hv, fun c hc => by cases hc⟩).1
+
+open BlocV.Safety in
+example : isDollar "$K" = true ∧ isDollar "K" = false ∧
+    (run unitStart [.enterFor "$K", .unstack, .unstack, .error 0, .enterForall "$K"]).flags "$K" = true := by decide
+
+open BlocV.Safety in
+/-- After every complete unit (all its loops closed, by themselves or by the error handler) every symbol carries exactly the
+flag its name gives it: the bit the harness dumps after each unit. -/
+theorem safety_after_unit (evs : List Ev) :
+    ((run unitStart evs).ctl = [] → run unitStart evs = unitStart) ∧ run unitStart (evs ++ [Ev.error 0]) = unitStart := by
+  have hd : depthOk unitStart.ctl.length unitStart evs = true := depthOk_zero unitStart evs
+  refine ⟨fun hc => restored_when_closed unitStart evs hd (by rw [hc]; rfl), ?_⟩
+  rw [run_append]
+  exact restored_by_unwinding unitStart evs hd
+
+open BlocV.Safety in
+example : run unitStart ([.enterFor "$K", .enterWhile, .enterFor "I"] ++ [Ev.error 0]) = unitStart :=
+  (safety_after_unit _).2
+
+/-! ### C02R3 — the known-finding region C02.static_vs_runtime.op.* is exactly `binTypeGap` -/
+
+/-- The region predicate the driver names a case with (`KF.c02OpGap`, lean/BlocV/KF/C02.lean) is the gap of
+`bin_kind_sound_static` / `bin_type_gap_exact`. -/
+theorem kf_op_region_eq_gap (op : BinOp) (s1 s2 t1 t2 : Ty) : KF.c02OpGap op s1 s2 t1 t2 = binTypeGap op s1 s2 t1 t2 := by
+  have ha : ∀ nn m1 m2, KF.c02ArithMajor nn m1 m2 = arithMajor nn m1 m2 := by
+    intro nn m1 m2; cases m1 <;> cases m2 <;> rfl
+  cases op <;> simp [KF.c02OpGap, binTypeGap, binTypeGapM, binMajor, ha]
+
+/-- Outside the recorded region the compile-time type IS the run-time type — for every operator, every operand values, every
+static knowledge of the operands (exact or opaque); inside it, it never is. So a static ≠ run-time disagreement the check
+sees outside `KF.c02OpGap` is not the recorded defect: it is reported as a violation. -/
+theorem static_eq_runtime_outside_kf_region (op : BinOp) (s1 s2 : Ty) (a b v : Val) (same : Bool)
+    (hs1 : s1.major = a.type.major ∨ s1.major = .none) (hs2 : s2.major = b.type.major ∨ s2.major = .none)
+    (h : evalBin op a b same = .ok v) (hd : (typeBin op s1 s2).defined = true) :
+    (KF.c02OpGap op s1 s2 a.type b.type = false → v.type.level = (typeBin op s1 s2).level ∧ v.type.major = (typeBin op s1 s2).major) ∧
+    (KF.c02OpGap op s1 s2 a.type b.type = true → v.type.major ≠ (typeBin op s1 s2).major) := by
+  have := bin_kind_sound_static op s1 s2 a b v same hs1 hs2 h hd
+  rw [kf_op_region_eq_gap]
+  constructor
+  · intro hg; rw [if_neg (by simp [hg])] at this; exact this
+  · intro hg; rw [if_pos hg] at this; exact this.2
+
+example : KF.c02OpGap .sub Ty.none Ty.int Ty.int Ty.int = true ∧ KF.c02OpGap .sub Ty.int Ty.int Ty.int Ty.int = false ∧
+    KF.c02OpGap .mod Ty.none Ty.none Ty.none Ty.none = true ∧ KF.c02OpGap .add Ty.none Ty.int Ty.int Ty.int = false ∧
+    KF.c02OpGap .mul Ty.num Ty.int Ty.num Ty.int = false := ⟨rfl, rfl, rfl, rfl, rfl⟩
 
 end BlocV.C02
